@@ -58,8 +58,20 @@
     `covered_bookkeeping` proves it for the list bookkeeping of ParseHeaders itself (any accepted headers, any array
     size) and `covered_header_block` for ParseHeaders on every block of the C07 grammar under the generic treatment
     (the scope of C07 `header_block`); the test below checks it on a message parsed with a values object;
-  * anything about WHICH character classes `getCallIDSig` / `getStrCharsSig` / `getViaBrSig` compute: they enter as
-    functions of the Call-ID, From-tag and first-Via bytes only.
+  (7) what the character-class functions compute (`Sipsp.Proofs.SigChars`): `strsig_eq`, `strsig_bits`,
+      `strsig_class_bit`, `strsig_no_other_bit`: getStrCharsSig of any byte string = an explicit list function; bit
+      3..12 is set iff the reserved byte `@ . : - * / + = _ |` of that bit occurs; bits 13–15 are the hex / base64 /
+      digit-block guesses (length and position dependent — NOT order independent: `GGGGGGGG=` is flagged base64, its
+      permutation `=GGGGGGGG` is not); no other bit is ever set; `strsig_perm_low`, `strsig_append_low` (the class bits
+      are order independent and additive); `strsig_span(_bit)` (with an excluded address span); `viabr_no_semicolon`,
+      `viabr_first_semicolon`, `viabr_glist`, `viabr_first_branch`, `viabr_no_branch`: GetViaBrSig reads the parameters
+      after the first ';', the FIRST parameter named `branch` (any letter case) decides, its value minus the magic
+      cookie (stripped case-insensitively, only when something follows it) is classified, a later `branch` is ignored,
+      no `branch` / empty value gives the empty signature; `same_classes_same_signature`: two covered requests that
+      agree on method, first occurrences with form, Call-ID class AND short length, From-tag class and first-Via
+      branch class have the same signature.
+      Observed: the signature also contains the Call-ID short length (length without the address, in units of 4), so
+      "a function of the classes" holds with that length counted as part of the Call-ID's class.
   Observed (true of the Go code as well): every visited type, fingerprinted or not, is recorded in the loop's `seen`
   word, so the "all flagged types seen" exit can fire only before the first non-fingerprinted header (type < 16,
   which includes an unused, cleared array entry); afterwards a
@@ -69,6 +81,7 @@
 -/
 import Sipsp.Proofs.SigSpec
 import Sipsp.Proofs.SigCompose
+import Sipsp.Proofs.SigChars
 
 namespace Sipsp.C19
 open Sipsp
@@ -656,5 +669,58 @@ theorem sig_capacity_small : type_of% @Sipsp.sc_sig_small := @Sipsp.sc_sig_small
     * if the first capacity is too small and the second is not smaller, GetMsgSig on the first object gives the
       truncated indication, or else exactly the result on the second object. -/
 theorem sig_capacity : type_of% @Sipsp.sc_sig_capacity := @Sipsp.sc_sig_capacity
+
+/-! ### what the character-class functions compute (proved in `Sipsp.Proofs.SigChars`) -/
+
+/-- **`getStrCharsSig s 0 0` is `scSig s`, for every byte string** (no extra bytes skipped) -/
+theorem strsig_eq : type_of% @Sipsp.getStrCharsSig_eq := @Sipsp.getStrCharsSig_eq
+
+/-- **the bits of `scSig`**: bits 3–12 are the class bits; bit 13 (hex encoding), bit 15 (digit blocks), bit 14
+    (base64) as stated; no other bit -/
+theorem strsig_bits : type_of% @Sipsp.scSig_testBit := @Sipsp.scSig_testBit
+
+/-- **class bits of `getStrCharsSig s 0 0`**: the bit of a reserved byte is set iff the byte occurs in `s` -/
+theorem strsig_class_bit : type_of% @Sipsp.getStrCharsSig_class_bit := @Sipsp.getStrCharsSig_class_bit
+
+/-- bits 0–2 (the IP-position bits) and bits above 15 are never set by `getStrCharsSig s 0 0` -/
+theorem strsig_no_other_bit : type_of% @Sipsp.getStrCharsSig_no_other_bit := @Sipsp.getStrCharsSig_no_other_bit
+
+/-- order independence of the class bits (bits 0–12): permuting the bytes does not change them. The three
+    encoding bits 13–15 ARE positional (see the examples below). -/
+theorem strsig_perm_low : type_of% @Sipsp.getStrCharsSig_perm_low := @Sipsp.getStrCharsSig_perm_low
+
+/-- monotonicity under concatenation, class bits: the class bits of `s ++ t` are the union of those of `s`, `t` -/
+theorem strsig_append_low : type_of% @Sipsp.getStrCharsSig_append_low := @Sipsp.getStrCharsSig_append_low
+
+/-- the result of `getStrCharsSig` with any excluded span: the class of the bytes outside the span, possibly with
+    some of the three encoding flags (bits 13–15); and the count of skipped neighbours -/
+theorem strsig_span : type_of% @Sipsp.getStrCharsSig_span := @Sipsp.getStrCharsSig_span
+
+/-- **class bits with an excluded span**: for k = 3 … 12 the bit is set iff the corresponding reserved byte occurs
+    OUTSIDE the span; bits 0–2 are never set -/
+theorem strsig_span_bit : type_of% @Sipsp.getStrCharsSig_span_bit := @Sipsp.getStrCharsSig_span_bit
+
+/-- no `;` in the Via value: no parameters, empty signature -/
+theorem viabr_no_semicolon : type_of% @Sipsp.getViaBrSig_no_semicolon := @Sipsp.getViaBrSig_no_semicolon
+
+/-- the parameters are read from the byte after the FIRST `;` -/
+theorem viabr_first_semicolon : type_of% @Sipsp.getViaBrSig_first_semicolon := @Sipsp.getViaBrSig_first_semicolon
+
+/-- **`GetViaBrSig` on a Via value `sent-protocol sent-by ; params`** (first `;` at `s`, then a parameter list of the
+    C17 grammar with separator `;`, ended by `,` or the end of the value): the signature is that of the value of
+    the FIRST parameter called `branch` (case-insensitive), without the magic cookie; an empty or missing value, or
+    no such parameter, gives the empty signature; a later `branch` is ignored; Go does not panic -/
+theorem viabr_glist : type_of% @Sipsp.getViaBrSig_glist := @Sipsp.getViaBrSig_glist
+
+/-- a later `branch` is ignored: the result depends only on the list up to and including the first `branch` -/
+theorem viabr_first_branch : type_of% @Sipsp.scViaResult_first := @Sipsp.scViaResult_first
+
+theorem viabr_no_branch : type_of% @Sipsp.scViaResult_none := @Sipsp.scViaResult_none
+
+/-- **C19 in its own words**: two requests that agree on the method, on the first occurrences of the fingerprinted
+    headers (type and long / compact form, in order), on the Call-ID signature and short length, on the From-tag
+    signature and on the branch signature of the first Via have the same signature — whatever the bytes of
+    Call-ID, From-tag and Via are, and whatever else differs -/
+theorem same_classes_same_signature : type_of% @Sipsp.getMsgSig_same_classes := @Sipsp.getMsgSig_same_classes
 
 end Sipsp.C19
